@@ -371,21 +371,23 @@ func (Engine) Generate(prop string, verifSeed int64, tier string, idx int) *core
 	d := gen.SerialisableDoc(r, "s", maxNodes)
 	f := readable[r.Intn(len(readable))]
 	indent := r.Intn(9)
-	b, err := gen.RenderWith(f, d, indent)
-	if err != nil {
-		panic("stream: cannot render workload document: " + err.Error())
-	}
+	b, err := gen.RenderSafe(f, d, indent)
 	sp.F, sp.Indent = f, indent
-	switch k := r.Intn(20); {
+	k := r.Intn(20)
+	if err != nil {
+		// the writer produced nothing for this document (C07's subject); detection gets a fixed non-SBOM input
+		b, k = []byte(`{"writer":"refused the workload document"}`), 14
+	}
+	switch {
 	case k < 6:
 		sp.Kind = "writer-output"
 	case k < 10:
 		sp.Kind = "relayout"
-		nb, err := relayout(r, b)
-		if err != nil {
-			panic("stream: relayout: " + err.Error())
+		if nb, err := relayout(r, b); err == nil {
+			b = nb
+		} else {
+			sp.Kind = "writer-output" // output that is not a single JSON value is delivered as it is
 		}
-		b = nb
 	case k < 14:
 		sp.Kind = "nearmiss"
 		offs := declValueOffsets(b)
@@ -443,7 +445,9 @@ func (Engine) Generate(prop string, verifSeed int64, tier string, idx int) *core
 	case k < 18:
 		sp.Kind = "truncate-all"
 		small := gen.SerialisableDoc(r, "t", 1)
-		b, _ = gen.RenderWith(f, small, 0)
+		if sb, err := gen.RenderSafe(f, small, 0); err == nil {
+			b = sb
+		}
 	default:
 		// stream faults on writer output
 		sp.Kind = "writer-output"
